@@ -20,9 +20,15 @@ FINISH = dict(rule='every first word of the add/sub/cmp/logic/moda families x k 
 
 def run(ck):
     ck.mc('AluTheorems', 'MC_Alu_W4.cfg', timeout=3000, coverage=False)
+    # full width, symbolically: AddSub / flags / saturator / compare = integer arithmetic for ALL 2^40 x 2^40 operand pairs
+    # (Apalache on AluInd.tla, W = 16); TLC checks at W = 4, for all values, that AluInd's operators are TeakAlu's
+    ck.mc('AluIndSame', 'MC_AluIndSame.cfg', timeout=1200, coverage=False)
+    ck.apalache('AluInd', 'AluInd.cfg', 'Exact', timeout=1500)
     isa_common.family_check(ck, FAMILY, ck.pick(4, 8), 'c03', rounds=ck.pick(1, 4))
     ck.assumptions += isa_common.ISA_ASSUMPTIONS + [
-        'exactness is proved exhaustively at limb width 4 (operators are generic in the width) and observed at width 16']
+        'exactness of add/sub/compare, flags and saturation is proved at full width (W = 16) by Apalache/SMT on AluInd.tla, whose '
+        'operators TLC shows equal to TeakAlu.tla for all values at W = 4 (same text, generic in W); the remaining ALU theorems '
+        '(logic operations, shifts) are exhaustive at limb width 4 and observed at width 16; Apalache and Z3 are trusted']
 
 
 def replay(ck, path):
